@@ -291,7 +291,7 @@ impl RefState {
                     Some(o) => o,
                     None => return rej("covenant-undecodable", format!("input {}", idx)),
                 };
-                let env = RefEnv { parent_coinid: *i, parent_cdh: cdh.clone(), spender_index: idx as u8, last_header: ctx.last_header };
+                let env = RefEnv { parent_coinid: *i, parent_cdh: cdh.clone(), spender_index: idx as u64, last_header: ctx.last_header };
                 match eval_covenant(&ops, tx, Some(&env), 5_000_000) {
                     Some(true) => {}
                     _ => return rej("covenant-rejects", format!("input {}", idx)),
@@ -354,8 +354,15 @@ impl RefState {
                 }
             }
             let min = ref_min_fee(tx, self.fee_multiplier);
-            next.fee_pool = next.fee_pool.saturating_add(min);
-            next.tips = next.tips.saturating_add(tx.fee.0 - min);
+            // "added ... exactly": a fee that the two 128-bit tallies (and their sum, which the proposer's reward forms again)
+            // cannot take exactly is not acceptable (until session 4 the model saturated here, as the code did: DESIGN §7-AF)
+            match (next.fee_pool.checked_add(min), next.tips.checked_add(tx.fee.0 - min)) {
+                (Some(p), Some(t)) if p.checked_add(t).is_some() => {
+                    next.fee_pool = p;
+                    next.tips = t;
+                }
+                _ => return rej("fee:tallies-beyond-128-bits", "the fee pool, the tips or their sum would leave 128 bits"),
+            }
             next.block_txs.insert(tx.hash_nosigs(), tx.clone());
             if let Some(k) = PoolKey::from_bytes(&tx.data) {
                 next.seen_pool_keys.insert(k);
@@ -508,6 +515,12 @@ impl RefState {
             return None;
         }
         if k.to_bytes() != tx.data {
+            return None;
+        }
+        // the two sides of a pool are denominations; `NewCustom` is the placeholder an output carries until its transaction's hash
+        // is known, not a denomination (the empty string parses as the pair (NewCustom, MEL): a "pool" whose left side would be
+        // every transaction's own new token at once - until session 4 this function copied the code here, DESIGN §7-AD)
+        if k.left() == Denom::NewCustom || k.right() == Denom::NewCustom {
             return None;
         }
         Some(k)
